@@ -163,6 +163,35 @@ def run(ctx):
             good = any(strip_cast(a.ev["rhs"]).get("n") == "next" and
                        strip_cast(strip_cast(a.ev["rhs"]).get("b", {})).get("n") == field for a in adv)
             ctx.ob("C06.R2e", "%s %s" % (inst, field), good, fn.loc, "release loop over %s does not advance along ->next" % field)
+        # R2h the bookkeeping array of a group lives inside one of the group's own blocks: once a block of the group went back,
+        # the array (still named by the chain head) must not be read again
+        for field, deals in (("_last_page_array", pdeal), ("_last_oversize_page_array", udeal)):
+            adv = [n for n in ig.ev_nodes(lambda n: n.id in live and n.ev["e"] == "asg" and n.ev.get("op") == "=")
+                   if strip_cast(n.ev["lhs"]).get("n") == field]
+
+            def derefs_head(n, field=field):
+                ev = n.ev
+                parts = list(ev.get("args", []) or []) + [ev.get(k) for k in ("this", "rhs", "init", "v")]
+                if ev["e"] == "asg" and strip_cast(ev.get("lhs")).get("n") != field:
+                    parts.append(ev.get("lhs"))
+                for part in parts:
+                    for sd in walk(part):
+                        if isinstance(sd, dict) and sd.get("k") == "f" and sd.get("arrow") and \
+                                isinstance(strip_cast(sd.get("b")), dict) and strip_cast(sd["b"]).get("n") == field:
+                            return True
+                return False
+            reads = [n for n in ig.ev_nodes() if n.id in live and derefs_head(n)]
+            bad = None
+            for d in deals:
+                if not ig.path_exists(ig.entry, d, avoiding=adv, strict=False):
+                    continue            # the head already names the next group when this block goes back
+                for r_ in reads:
+                    if r_ is not d and ig.path_exists(d, r_, avoiding=adv):
+                        bad = (d, r_)
+            ctx.ob("C06.R2h", "%s %s" % (inst, field), bool(deals) and bool(adv) and bad is None, (bad[1].where if bad else fn.loc),
+                   "%s is read (line %s) after a block of the group it describes was handed back (line %s) while it still names that "
+                   "group: the array is stored inside one of those blocks" % (field, bad[1].line if bad else "?", bad[0].line if bad else "?"),
+                   site="release@%s-read-after-free" % field)
     for fn in fb.find(pred=lambda f: f.record == SHARED and f.name == "release" and f.has_cfg()):
         ig = IG(fn, inline=nin)
         live = ig.live_nodes()
